@@ -1,6 +1,6 @@
 """Type-directed generator of mostly-valid resynth programs, driven by the library dump
 (the repo's own signature catalogue) — plus a malformed stream (mutations)."""
-import json, os
+import json, os, re
 from .core import VERIF, Rng
 
 CLASS_OF = {  # constructor function -> class path (checked against the harness by the C08 campaign)
@@ -317,3 +317,79 @@ def join_lines(src, rng, p=(1, 2)):
         else:
             out.append(l)
     return '\n'.join(out).encode('utf-8')
+
+
+def _split_args(s):
+    """split the text between the parentheses of a call at top-level commas (strings and nested parentheses respected)"""
+    out, cur, depth, instr = [], '', 0, False
+    for ch in s:
+        if instr:
+            cur += ch
+            if ch == '"': instr = False
+            continue
+        if ch == '"': instr = True; cur += ch
+        elif ch == '(': depth += 1; cur += ch
+        elif ch == ')': depth -= 1; cur += ch
+        elif ch == ',' and depth == 0: out.append(cur); cur = ''
+        else: cur += ch
+    if cur.strip(): out.append(cur)
+    return out
+
+
+_CALL_RE = re.compile(r'(?<![\w.:])([a-z_][a-z_0-9]*(?:::[a-z_][a-z_0-9]*)+|[a-z_][a-z_0-9]*\.[a-z_][a-z_0-9]*)\(')
+
+
+def _lookup(lib, path):
+    if '::' in path: return lib.syms.get(path)
+    # a method call on a variable: usable when every class that has a method of this name declares the same mandatory names
+    meth = path.split('.')[1]
+    cands = [m for ms in lib.methods.values() for m in ms if m['path'].split('.')[1] == meth]
+    sigs = set(tuple(a['name'] for a in m['args'] if a['kind'] == 'pos') for m in cands)
+    return cands[0] if cands and len(sigs) == 1 else None
+_NAMED_RE = re.compile(r'^\s*[A-Za-z_][A-Za-z_0-9]*\s*:(?!:)')
+
+
+def name_mandatory(src, lib, rng, p=(1, 2)):
+    """Semantics-preserving rewrite (C11): in calls of library functions, pass the mandatory parameters by name instead of
+    by position (in declaration order or reversed). Only calls whose leading arguments are all positional are touched."""
+    try:
+        text = src.decode('utf-8')
+    except UnicodeDecodeError:
+        return src
+    out, i = '', 0
+    while True:
+        m = _CALL_RE.search(text, i)
+        if not m:
+            out += text[i:]; break
+        # do not touch text inside string literals or comments: count quotes on the line before the match
+        ls = text.rfind('\n', 0, m.start()) + 1
+        before = text[ls:m.start()]
+        if before.count('"') % 2 == 1 or '#' in before or '//' in before:
+            out += text[i:m.end()]; i = m.end(); continue
+        f = _lookup(lib, m.group(1))
+        # find the matching parenthesis
+        j, depth, instr = m.end(), 1, False
+        while j < len(text) and depth:
+            ch = text[j]
+            if instr: instr = ch != '"'
+            elif ch == '"': instr = True
+            elif ch == '(': depth += 1
+            elif ch == ')': depth -= 1
+            j += 1
+        inner = text[m.end():j - 1]
+        if f is None or f.get('kind') != 'func' or depth or not rng.chance(*p):
+            out += text[i:m.end()]; i = m.end(); continue
+        pos = [a['name'] for a in f['args'] if a['kind'] == 'pos']
+        args = _split_args(inner)
+        if not pos or len(args) < len(pos) or any(_NAMED_RE.match(a) for a in args[:len(pos)]):
+            out += text[i:m.end()]; i = m.end(); continue
+        named = ['%s: %s' % (n, name_mandatory(a.strip().encode(), lib, rng, p).decode()) for n, a in zip(pos, args)]
+        rest = args[len(pos):]
+        first_named = [a for a in rest if _NAMED_RE.match(a)]
+        anon = [a for a in rest if not _NAMED_RE.match(a)]
+        if rng.chance(1, 2): named.reverse()
+        # named arguments first (mandatory + the optional ones that were given), then the collected tail
+        new_inner = ', '.join(named + [a.strip() for a in first_named] + [name_mandatory(a.strip().encode(), lib, rng, p).decode() for a in anon])
+        out += text[i:m.end()] + new_inner + ')'
+        i = j
+    return out.encode('utf-8')
